@@ -59,6 +59,11 @@ def degenerate_case(case):
         eq = r.choice(["%s -> 4 %s" % (a, b), "2 %s + 3 %s -> %s" % (a, b, a), "%s -> 3 %s + 2 %s" % (a, a, b), "5 %s -> 6 %s" % (a, b),
                        "4 %s + 4 %s -> " % (a, b)])
         rx.append(st.Reaction(eq, kf=r.choice([0.0, 1e-6]), kr=r.choice([0.0, 0.0, 1e-9])))
+    if r.random() < 0.12:
+        # many reactions (33..140 objects, i.e. 66..280 one-way channels): more than a small fixed-size table holds
+        for j in range(r.randint(33, 140)):
+            a, b = r.choice(labels), r.choice(labels)
+            rx.append(st.Reaction("%d %s -> %d %s" % (1 + j % 3, a, 1 + (j // 3) % 3, b), kf=r.choice([0.0, 1e-4]), kr=r.choice([0.0, 1e-5])))
     net = st.RDNetwork(species, rx, environments=["e0", "e1"])
     if r.random() < 0.5:
         w, h, d = r.choice([(1, 1, 1), (2, 1, 1), (1, 2, 1), (1, 1, 2), (2, 2, 1), (3, 1, 1), (2, 2, 2), (1, 3, 2)])
